@@ -358,6 +358,29 @@ def gen(rng, tier):
     st["srv_streams"] += 2
     cases.append(c)
 
+    # --- well-formed requests (no body / Content-Length / chunked) carrying an Expect field at a random header position:
+    #     read_faithful_expect / expect_interim_answer (the request is handed over as sent, the interim answer is the only thing written)
+    c = []
+    for i in range(24 if tier == "quick" else 120):
+        w = wellformed(rng, keepalive=rng.choice([None, True]), small=True)
+        head, sep, tail = w.partition(b"\r\n\r\n")
+        lines = head.split(b"\r\n")
+        ex = rng.choice([b"100-continue"] * 5 + [b"100-Continue", b"100-continue, x", b"100", b"x"])
+        lines.insert(rng.randrange(1, len(lines) + 1), rng.choice([b"Expect", b"expect", b"EXPECT"]) + b": " + ex)
+        w = b"\r\n".join(lines) + sep + tail
+        k = rng.randrange(3)
+        if k == 0:
+            c.append("req " + hexs(w + rng.choice([b"", b"GET /next HTTP/1.1\r\n\r\n", b"\x00\xff"])))
+            st["req_wellformed"] += 1
+        elif k == 1:
+            c.append("srv " + hexs(w + wellformed(rng, small=True)))
+            st["srv_streams"] += 1
+        else:
+            cut = rng.randrange(len(w) + 1)
+            c.append("req " + hexs(w[:cut]))
+            st["req_mutated"] += 1
+    cases.append(c)
+
     # --- valid requests cut at EVERY byte position (request line, each header, empty line, each body byte, and the
     #     same inside the second request of a keep-alive connection): what the dispatch clause is about
     canon = [
@@ -883,7 +906,7 @@ def _ref_request(s):
         if not hm:
             return None
         n = _capital(hm.group(1))
-        if n in hs or n in (b"Expect", b"Upgrade"):
+        if n in hs or n == b"Upgrade":
             return None
         v = hm.group(2)
         pos += hm.end()
@@ -951,6 +974,15 @@ def _ref_request(s):
     return rec, pos, hs
 
 
+def _ref_interim(hs):
+    """RFC 7231 5.1.1: `Expect: 100-continue` is answered with an interim 100 before the body is read (the library refuses
+    announced lengths from 128000000 on with 417; the strict parser only admits 1-9 digit lengths)"""
+    if hs.get(b"Expect") != b"100-continue":
+        return b""
+    n = int(hs.get(b"Content-Length", b"0"))
+    return b"HTTP/1.1 100 Continue\r\n\r\n" if n < 128000000 else b"HTTP/1.1 417 Too big\r\n\r\n"
+
+
 def _ref_serve(s):
     """(records, response bytes, unread) for a stream made of strictly well-formed, dispatched requests, else None"""
     if any(len(l) > 16000 for l in s.split(b"\n")[:256]):
@@ -975,7 +1007,7 @@ def _ref_serve(s):
         recs.append(rec)
         pos += used
         ats.append(len(s) - pos)
-        out += proto + b" 200 OK\r\n" + (b"Connection: keep-alive\r\n" if hconn == b"keep-alive" else b"") + b"Content-Length: 2\r\n\r\nok"
+        out += _ref_interim(hs) + proto + b" 200 OK\r\n" + (b"Connection: keep-alive\r\n" if hconn == b"keep-alive" else b"") + b"Content-Length: 2\r\n\r\nok"
         if (proto == b"HTTP/1.0" and hconn != b"keep-alive") or hconn == b"close":
             break
     return recs, out, ats
@@ -1055,7 +1087,7 @@ def reference(line):
             if r is None:
                 return None
             rec, pos, _hs = r
-            return "%s | err=0 closed=0 out=0:- rest=%d" % (rec, len(s) - pos)
+            return "%s | err=0 closed=0 out=%s rest=%d" % (rec, adler_rep(_ref_interim(_hs)), len(s) - pos)
         if t[0] == "tg" and len(t) == 2:
             raw = unhex(t[1])
             if not raw or not _VALID_ESC.match(raw) or any(c <= 32 or c >= 127 for c in raw):
